@@ -64,11 +64,13 @@ Definition op_names_ok (o : op) : Prop :=
   | Rename p q => valid_name (basename p) = true /\ valid_name (basename q) = true
   end.
 
-(* the reader invariant: every path stored in _path_for_wd, _wd_for_path and _moved_from_events is rooted *)
+(* the reader invariant: every path stored in _path_for_wd, _wd_for_path, _moved_from_events and the remembered
+   _moved_out_candidate (the src_path of a directory IN_MOVED_FROM) is rooted *)
 Record path_inv (root : bytes) (r : rstate) : Prop := mkPI {
   pi_pfw : forall wd p, In (wd, p) (pfw r) -> rooted root p;
   pi_wfp : forall p wd, In (p, wd) (wfp r) -> rooted root p;
-  pi_mvf : forall c p, In (c, p) (mvf r) -> rooted root p }.
+  pi_mvf : forall c p, In (c, p) (mvf r) -> rooted root p;
+  pi_pend : forall c p, pend r = Some (c, p) -> rooted root p }.
 
 (* the same for a root spelled with trailing separators (statement C19_reader_any_root_full) *)
 Definition jraw_ok (root : bytes) (x : raw) : Prop :=
@@ -76,7 +78,8 @@ Definition jraw_ok (root : bytes) (x : raw) : Prop :=
 Definition jpath_inv (root : bytes) (r : rstate) : Prop :=
   (forall wd p, In (wd, p) (pfw r) -> jrooted root p) /\
   (forall p wd, In (p, wd) (wfp r) -> jrooted root p) /\
-  (forall c p, In (c, p) (mvf r) -> jrooted root p).
+  (forall c p, In (c, p) (mvf r) -> jrooted root p) /\
+  (forall c p, pend r = Some (c, p) -> jrooted root p).
 
 (* ------------------------------------------------------------------ types *)
 Inductive ptag := TStr | TBytes.
